@@ -6,7 +6,7 @@
 (* 2^31.  Relative error per operation < 2e-7.                             *)
 (* The harness encodes floats with harness/encode.py (dec_enc).            *)
 (***************************************************************************)
-EXTENDS Integers, Sequences, TLC
+EXTENDS Integers, Sequences, TLC, TLCExt
 
 DZero == <<0, 0>>
 DAbsI(i) == IF i < 0 THEN -i ELSE i
@@ -73,6 +73,7 @@ DCloseAbs(a, b, tol, atol) == DLeq(DAbs(DSub(a, b)), DAdd(DMul(tol, DMax(DAbs(a)
 DTol(k) == <<10000000, -7 - k>>          \* 10^-k
 
 RECURSIVE DSumRec(_, _, _)
-DSumRec(s, i, acc) == IF i > Len(s) THEN acc ELSE DSumRec(s, i + 1, DAdd(acc, s[i]))
+\* the accumulator is forced at every step (a lazy chain of ~60 terms overflowed the Java stack)
+DSumRec(s, i, acc) == IF i > Len(s) THEN acc ELSE LET a == TLCEval(DAdd(acc, s[i])) IN DSumRec(s, i + 1, a)
 DSum(s) == DSumRec(s, 1, DZero)
 =============================================================================
